@@ -308,15 +308,20 @@ func (c *CaseC18) Eval(ob *Obs) []Finding {
 				idle := int64(0)
 				const idleBudget = int64(1) << 42 // fake nanoseconds without any possible step: the consumer would wait for ever
 				// the consumer, driven by the plan
-				for !finished() && idle < idleBudget {
+				spun := false // the goroutine released last called runtime.Gosched: the consumer, if it can receive, goes first
+				for steps := 0; !finished() && idle < idleBudget && steps < 200000; steps++ {
 					synctest.Wait()
 					recvFirst, order, pick, consumerFirst := next()%2 == 0, orders[next()%6], next(), next()%2 == 1
+					if spun {
+						recvFirst, spun = true, false
+					}
 					if recvFirst && tryRecv(order) {
 						idle = 0
 						continue
 					}
 					if g := takeParked(pick); g != nil {
 						idle = 0
+						spun = g.site == goschedSite
 						decisions = append(decisions, fmt.Sprintf("release:%s:%v", g.site, consumerFirst))
 						if !consumerFirst {
 							close(g.ch) // the goroutine runs until it parks again, blocks, sleeps or ends
@@ -349,8 +354,11 @@ func (c *CaseC18) Eval(ob *Obs) []Finding {
 				}
 				so.consumerFinished = finished()
 				recording = false
-				// let the producer side run as far as it can on its own
-				for i := 0; i < 100000; i++ {
+				// let the producer side run as far as it can on its own (it passes at most a few
+				// schedule points per line of input; a goroutine that spins politely for ever is
+				// cut off here and counted as not having exited)
+				budget := 64 + 8*strings.Count(text, "\n")
+				for i := 0; i < budget; i++ {
 					synctest.Wait()
 					g := takeParked(0)
 					if g == nil {
@@ -361,7 +369,7 @@ func (c *CaseC18) Eval(ob *Obs) []Finding {
 				synctest.Wait()
 				so.producerExitedAfterPolicy = exited.Load()
 				// release whatever is still sending, so that the next stream / the end of the bubble is not blocked
-				for i := 0; i < 100000 && !exited.Load(); i++ {
+				for i := 0; i < budget && !exited.Load(); i++ {
 					synctest.Wait()
 					if g := takeParked(0); g != nil {
 						close(g.ch)
